@@ -202,7 +202,7 @@ func orderedSubsets(pool []string, max int, r *core.Rand, limit int) [][]string 
 
 func c05(ctx *core.Ctx) {
 	quietLogs()
-	ctx.Rule("routes with every ordered Produces list (size 1-3) over the registered media types x generated Accept headers (1-18 ranges, now and then 33, 65 or 100, q-values, parameters before/after q, */*, foreign types, absent, two header fields) x default response content type {unset, JSON, XML} x registered-writer set {built-in, +text/plain, +application/x-verif, +8 types registered concurrently, +types registered with a parameter of their own (charset, version)}; handler calls WriteEntity / WriteHeaderAndEntity; every route is registered for GET, HEAD, PUT, DELETE, PATCH and POST (requests rotate over them); every third route also declares media types without a registered writer; every fourth request goes through a container with an adapted pass-through middleware; every seventh handler overwrites Accept in the request's header map (preparing an upstream call) before it writes its entity; long headers whose producible ranges only come at the very end. Oracle: reference ranker; SP-decorated spelling and 3 repetitions must give the same choice. Non-trivial = an admitted request that wrote an entity; distinct by (writer set, default, produces list, winning rule: exact/star/absent, number of ranges bucket, decorated).")
+	ctx.Rule("routes with every ordered Produces list (size 1-3) over the registered media types x generated Accept headers (1-18 ranges, now and then 33, 65 or 100, q-values, parameters before/after q, */*, foreign types, absent, two header fields) x default response content type {unset, JSON, XML} x registered-writer set {built-in, +text/plain, +application/x-verif, +8 types registered concurrently while clients already ask for one of them, +types registered with a parameter of their own (charset, version)}; handler calls WriteEntity / WriteHeaderAndEntity; every route is registered for GET, HEAD, PUT, DELETE, PATCH and POST (requests rotate over them); every third route also declares media types without a registered writer; every fourth request goes through a container with an adapted pass-through middleware; every seventh handler overwrites Accept in the request's header map (preparing an upstream call) before it writes its entity; long headers whose producible ranges only come at the very end. Oracle: reference ranker; SP-decorated spelling and 3 repetitions must give the same choice. Non-trivial = an admitted request that wrote an entity; distinct by (writer set, default, produces list, winning rule: exact/star/absent, number of ranges bucket, decorated).")
 	ctx.Assume("Accept grammar: full media types and */*, well-formed q-values (malformed q and type/* ranges are outside the property)",
 		"with two Accept header fields only the reference-free clauses (Content-Type in Produces, never 406) are judged")
 	defer restful.DefaultResponseContentType("")
@@ -242,6 +242,28 @@ func c05(ctx *core.Ctx) {
 				var wg sync.WaitGroup
 				var ready, goFlag int32
 				types := make([]string, 8)
+				// a route that already produces the first of the new types next to JSON, and clients that prefer the new type
+				// while it is being registered: until the registration has returned either representation is right, afterwards
+				// only the preferred one
+				lateType := fmt.Sprintf("application/x-r%d-0", round)
+				lws := new(restful.WebService).Path("/late")
+				lws.Route(lws.GET("/doc").Produces(lateType, restful.MIME_JSON).To(func(req *restful.Request, resp *restful.Response) {
+					resp.WriteEntity(negEntity{A: "x", N: 7})
+				}))
+				c.Add(lws)
+				lateReq := rt.Req{Method: "GET", Path: "/late/doc", HasAcc: true, Accept: lateType + ", application/json;q=0.5"}
+				var stopClients int32
+				var cwg sync.WaitGroup
+				for g := 0; g < 4; g++ {
+					cwg.Add(1)
+					go func() {
+						defer cwg.Done()
+						for atomic.LoadInt32(&stopClients) == 0 {
+							req := lateReq
+							rt.Run(c, rt.Dispatch, &req)
+						}
+					}()
+				}
 				for k := range types {
 					types[k] = fmt.Sprintf("application/x-r%d-%d", round, k)
 					wg.Add(1)
@@ -259,6 +281,18 @@ func c05(ctx *core.Ctx) {
 				}
 				atomic.StoreInt32(&goFlag, 1)
 				wg.Wait()
+				atomic.StoreInt32(&stopClients, 1)
+				cwg.Wait()
+				{
+					req := lateReq
+					out := rt.Run(c, rt.Dispatch, &req)
+					ctx.Eval(1)
+					ctx.Count("types_registered_while_clients_asked_for_them", 1)
+					if ct := out.Rec.Hdr().Get("Content-Type"); out.Status != 200 || ct != lateType {
+						ctx.Violation(-1, "c05:rank:registered-while-asked-for", fmt.Sprintf("RegisterEntityAccessor(%q) has returned; Accept %q on a route producing [%s, application/json] is answered status %d Content-Type %q (clients had asked for it during the registration)", lateType, lateReq.Accept, lateType, out.Status, ct),
+							map[string]interface{}{"round": round, "type": lateType, "status": out.Status, "content_type": ct})
+					}
+				}
 				ws := new(restful.WebService).Path("/reg")
 				for k, m := range types {
 					ws.Route(ws.GET(fmt.Sprintf("/t%d", k)).Produces(m).To(func(req *restful.Request, resp *restful.Response) {
